@@ -260,6 +260,21 @@ func CheckC08(t Target, src *choice.Src, st *Stats) *Violation {
 				Expect: []string{digest(base), digest(r2)}, Choices: genDraws}
 		}
 	}
+	// previous-output twin: -o already holds what the same configuration generated under another
+	// build info (only the version line differs): the bytes written must not depend on that
+	if base.Exit == 0 && w.OutKind == "file" && base.Out.Exists && len(w.Faults) == 0 {
+		pw := w.Clone()
+		pw.PreOut = &InFile{Path: w.Out, Content: replaceVersionLine(base.Out.Data, "// gontainer version: some-other-build 0000000 (build date 2001-01-01T00:00:00Z)"), Mode: 0644}
+		rp := Exec(t, pw)
+		if st != nil {
+			st.note(pw, rp)
+			st.Dims["previous-output"]++
+		}
+		if rp.Exit != base.Exit || rp.Out.Sha != base.Out.Sha {
+			return &Violation{Property: "C08", Sig: "previous-output:out", Detail: "the generated file depends on what the -o path held before (the previous generation of the same configuration by another build)\n" + explain(base, rp),
+				Worlds: []*World{w, pw}, Mode: "twin-out", Expect: []string{digest(base), digest(rp)}, Choices: genDraws}
+		}
+	}
 	// key order twin: same draws, different key order in every mapping of every file
 	kw := genC08World(choice.Replay(genDraws), seed64(src, "twin.keyseed"))
 	kw.MapSeed, kw.ListSeed, kw.Clock, kw.RandSeed, kw.Pid, kw.Host, kw.Version = w.MapSeed, w.ListSeed, w.Clock, w.RandSeed, w.Pid, w.Host, w.Version
@@ -410,4 +425,14 @@ func attribute(t Target, w, tw *World, base *Result, dim string, d []string) (si
 		return "env:" + strings.Join(resp, ",") + ":" + art, detail + "responsible environment variable(s): " + strings.Join(resp, ", ") + "\n"
 	}
 	return dim + ":" + art, detail
+}
+
+func replaceVersionLine(src, line string) string {
+	ls := strings.Split(src, "\n")
+	for i, l := range ls {
+		if strings.HasPrefix(l, "// gontainer version:") {
+			ls[i] = line
+		}
+	}
+	return strings.Join(ls, "\n")
 }
